@@ -39,8 +39,14 @@ def pool(tier, seed):
     specs = []
     for i in range(n):
         rng = gen.rng_for(seed, ID, i)
-        specs.append(gen.config(rng, seasons=(1, 2), p_gw=0.25, p_custom=0.3, flags=(i % 3 == 0),
-                                harvest_early=0.1, pre=(0, 0, 10)))
+        kw = dict(seasons=(1, 2), p_gw=0.25, p_custom=0.3, flags=(i % 3 == 0), harvest_early=0.1, pre=(0, 0, 10))
+        if i % 4 == 1:
+            # state that leaks between instances shows under stress: water-logged root zones
+            kw.update(p_gw=1.0, gw_depths=(0.5, 0.8, 1.0, 1.3), wet=True, p_custom=0.0,
+                      soil_names=["Clay", "ClayLoam", "SiltClay", "Paddy", "Loam"])
+        if i % 4 == 3:
+            kw.update(methods=(3,))
+        specs.append(gen.config(rng, **kw))
     return specs
 
 
@@ -61,8 +67,16 @@ def sibling(sp, rng, kind):
         a["soil"] = {"type": gen.pick(rng, [x for x in common.SOILS if x not in ("Paddy", "ac_TunisLocal", a["soil"]["type"])]), "kw": {}}
         a["iwc"] = {"wc_type": "Prop", "method": "Layer", "depth_layer": [1], "value": [gen.pick(rng, ["FC", "WP", "SAT"])]}
     elif kind == "irr":
-        a["irr"] = {"method": int(gen.pick(rng, [0, 1, 2, 4, 5])), "kw": {"SMT": [55.0] * 4, "IrrInterval": 4, "depth": 6.0,
-                                                                         "NetIrrSMT": 60.0}, "schedule": None}
+        if S.irr_method(a) == 3:
+            # a denser schedule on the same window (a buffer keyed by the window length would leak it)
+            import datetime as dt
+
+            s0, n = S.d(a["start"]), (S.d(a["end"]) - S.d(a["start"])).days
+            a["irr"] = {"method": 3, "kw": {}, "schedule": [[gen.fmt(s0 + dt.timedelta(days=int(k))), 30.0]
+                                                            for k in range(3, n, 9)]}
+        else:
+            a["irr"] = {"method": int(gen.pick(rng, [0, 1, 2, 4, 5])), "kw": {"SMT": [55.0] * 4, "IrrInterval": 4, "depth": 6.0,
+                                                                             "NetIrrSMT": 60.0}, "schedule": None}
     elif kind == "crop_kw":
         a["crop"]["kw"] = dict(a["crop"].get("kw", {}), PlantMethod=int(rng.integers(0, 2)), ETadj=int(rng.integers(0, 2)))
     elif kind == "co2":
